@@ -993,7 +993,10 @@ Definition unspent_unknown (unspents : list (option txout)) (idx : nat) : Prop :
 
 Lemma missing_never_valid t unspents idx flags :
   unspent_unknown unspents idx -> is_solution_ok check t unspents idx flags = Ret false.
-Proof. unfold is_solution_ok. intros [H|H]; now rewrite H. Qed.
+Proof.
+  unfold is_solution_ok, base_is_solution_ok. destruct (missing_unspent t unspents idx); [reflexivity|].
+  intros [H|H]; now rewrite H.
+Qed.
 
 Lemma count_bad_ge t unspents flags idxs i n :
   In i idxs -> is_solution_ok check t unspents i flags = Ret false ->
@@ -1015,14 +1018,10 @@ Proof.
   apply in_seq. lia.
 Qed.
 
-(* with Tx.missing_unspent as the notion of "unknown" the guard holds for every transaction but a coinbase *)
-Lemma missing_unspent_never_valid_partial t unspents idx flags :
-  tx_is_coinbase t = false -> missing_unspent t unspents idx = true ->
-  is_solution_ok check t unspents idx flags = Ret false.
-Proof.
-  unfold missing_unspent. intros ->. intros H. apply missing_never_valid. unfold unspent_unknown.
-  destruct (nth_error unspents idx) as [[u|]|]; auto; discriminate.
-Qed.
+(* with Tx.missing_unspent as the notion of "unknown" (short list, None, or a coinbase input) *)
+Lemma missing_unspent_never_valid t unspents idx flags :
+  missing_unspent t unspents idx = true -> is_solution_ok check t unspents idx flags = Ret false.
+Proof. unfold is_solution_ok. now intros ->. Qed.
 
 (* repeated validation: the model has no state, the verdict after any history is the verdict of the last state *)
 Definition validate_history (hist : list (tx * list (option txout))) (idx : nat) (flags : N) : list (outcome bool) :=
@@ -1034,27 +1033,15 @@ Lemma history_is_fresh hist idx flags k t unspents :
 Proof. intros H. unfold validate_history. rewrite nth_error_map, H. reflexivity. Qed.
 End Validation.
 
-(* the stronger reading — "Tx.missing_unspent(idx) implies not valid" — fails for a coinbase input with a recorded
-   unspent: missing_unspent is True, the recorded script is replaced by b"" and the checker's verdict is returned *)
-Definition missing_unspent_statement : Prop :=
-  forall check t unspents idx flags,
-    missing_unspent t unspents idx = true -> is_solution_ok check t unspents idx flags = Ret false.
-
+(* a coinbase input with a recorded unspent: missing_unspent is True, hence never valid (the recorded script used
+   to be replaced by b"" and the checker's verdict returned; fixed in /repo a32303b) *)
 Definition coinbase_witness_tx : tx :=
   mk_tx 1 [mk_txin gen06_coinbase_hash gen06_coinbase_index [x51] [] 4294967295] [mk_txout 50 [x51]] 0.
 
-Lemma missing_unspent_statement_refuted : ~ missing_unspent_statement.
-Proof.
-  intros H.
-  specialize (H (fun _ _ _ _ => Ret tt) coinbase_witness_tx [Some (mk_txout 1 [x00])] O 0 eq_refl).
-  vm_compute in H. discriminate.
-Qed.
-
-Lemma coinbase_ignores_recorded_script check u flags :
-  is_solution_ok check coinbase_witness_tx [Some u] 0 flags
-  = match check coinbase_witness_tx [Some u] (mk_context 0 1 [] [x51] [] 4294967295 0) flags with
-    | Ret _ => Ret true | Raise E_SCRIPT => Ret false | Raise e => Raise e | OutOfFuel => OutOfFuel end.
-Proof. reflexivity. Qed.
+Lemma coinbase_recorded_unspent_not_valid check u flags :
+  missing_unspent coinbase_witness_tx [Some u] 0 = true
+  /\ is_solution_ok check coinbase_witness_tx [Some u] 0 flags = Ret false.
+Proof. split; reflexivity. Qed.
 
 (* ---- 9. non-vacuity ----------------------------------------------------------------------------------------------- *)
 Definition ex_hash (b : byte) : bytes := repeatb b 32.
